@@ -21,7 +21,7 @@ func c16Program() *hs.Program {
 	intT := hs.TInt
 	objT := hs.TObj(hs.Field{Name: "a", T: hs.TInt}, hs.Field{Name: "b", T: hs.TStr})
 	return &hs.Program{
-		Globals: []*hs.Let{{Name: "counter", X: hs.I(0)}},
+		Globals: []*hs.Let{{Name: "counter", X: hs.I(0)}, {Name: "done", X: hs.I(0)}},
 		Funcs: []*hs.Func{
 			hs.Fn("main", nil, hs.Blk(nil)),
 			hs.Fn("sub", intT, hs.Blk(hs.Bin("-", hs.V("a"), hs.V("b"))), hs.P("a", intT), hs.P("b", intT)),
@@ -40,6 +40,15 @@ func c16Program() *hs.Program {
 			hs.Fn("boom", intT, hs.Blk(hs.I(1), hs.ES(hs.CallN("throw", hs.S("bad"))))),
 			hs.Fn("deep", intT, hs.Blk(&hs.If{Cond: hs.Bin("==", hs.V("n"), hs.I(0)), Then: hs.Blk(hs.I(0)), Else: hs.Blk(hs.Bin("+", hs.I(1), hs.CallN("deep", hs.Bin("-", hs.V("n"), hs.I(1)))))}), hs.P("n", intT)),
 			hs.Fn("obj", objT, hs.Blk(&hs.ObjLit{Fields: []hs.ObjField{{Name: "a", X: hs.V("counter")}, {Name: "b", X: hs.S("x")}}})),
+			// a host call that spawns threads which finish in different orders
+			hs.Fn("short", nil, hs.Blk(nil)),
+			hs.Fn("medium", nil, hs.Blk(nil, hs.LetS("i", hs.I(0)), &hs.While{Cond: hs.Bin("<", hs.V("i"), hs.I(12)), Body: hs.Blk(nil, hs.ES(hs.Asg("+=", hs.V("i"), hs.I(1))))})),
+			hs.Fn("long", nil, hs.Blk(nil, hs.LetS("i", hs.I(0)), &hs.While{Cond: hs.Bin("<", hs.V("i"), hs.I(25)), Body: hs.Blk(nil, hs.ES(hs.Asg("+=", hs.V("i"), hs.I(1))))}, hs.ES(hs.Asg("+=", hs.V("done"), hs.I(1))))),
+			hs.Fn("launch", intT, hs.Blk(hs.I(7),
+				hs.ES(&hs.Spawn{Fn: "short"}), hs.ES(&hs.Spawn{Fn: "medium"}),
+				hs.LetS("i", hs.I(0)), &hs.While{Cond: hs.Bin("<", hs.V("i"), hs.I(12)), Body: hs.Blk(nil, hs.ES(hs.Asg("+=", hs.V("i"), hs.I(1))))},
+				hs.ES(&hs.Spawn{Fn: "long"}))),
+			hs.Fn("getdone", intT, hs.Blk(hs.V("done"))),
 			hs.Fn("caught", intT, hs.Blk(&hs.Try{Body: hs.Blk(hs.I(1), hs.ES(hs.CallN("throw", hs.S("inner")))), Var: "e", Catch: hs.Blk(hs.I(7))})),
 		},
 	}
@@ -60,7 +69,7 @@ func (c hostCall) String() string {
 
 var c16Alphabet = []hostCall{
 	{"sub", []int64{1, 0}}, {"sub", []int64{0, 1}}, {"inc", nil}, {"get", nil}, {"early", []int64{0}}, {"early", []int64{2}},
-	{"boom", nil}, {"deep", []int64{0}}, {"deep", []int64{3}}, {"obj", nil}, {"caught", nil},
+	{"boom", nil}, {"deep", []int64{0}}, {"deep", []int64{3}}, {"obj", nil}, {"caught", nil}, {"launch", nil}, {"getdone", nil},
 }
 
 var sp = herrors.Span{}
@@ -117,6 +126,7 @@ func c16Count(maxLen int) int {
 // c16Expected computes the expected host-visible log of a history with the reference evaluator.
 func c16Expected(prog *hs.Program, pr *hs.Printed, hist []hostCall) []string {
 	in := hs.NewInterp(prog, pr, 100000)
+	in.SpawnInline = true
 	in.Init()
 	failed := false
 	var ev []string
@@ -186,7 +196,7 @@ func c16Body(hist []hostCall, inspect bool) func(h *hostEnv, prog compiler.Compi
 				h.log("residue after %s: coreslock=%s", c.String(), ls)
 			}
 			if u := vsched.Unfinished(); u != 0 && res.Exception == nil {
-				h.log("residue after %s: %d core threads unfinished (%s)", c.String(), u, vsched.UnfinishedDesc())
+				h.log("residue after %s: unfinished-core-threads=%d (%s)", c.String(), u, vsched.UnfinishedDesc())
 			}
 		}
 	}
